@@ -17,6 +17,7 @@ ASSUMPTIONS = [
     "float/double/complex arithmetic is abstract: one uninterpreted function per operator over an uninterpreted sort; rounding is not modelled; float<->double casts are the identity",
     "distinct pointer parameters do not alias unless a contract says so",
     "values loaded from an array lie in the range of the array's element type",
+    "S/F obligations of 8/16/32-bit specializations: a value stored into a narrower output slot is assumed to be representable there (the property's own 'inputs representable in each'); E obligations do not use this assumption",
 ]
 
 F = z3.DeclareSort("F")
@@ -253,6 +254,8 @@ class Evaluator:
         self.assumed = []           # strings: things assumed on this unit
         self.facts = []             # universally valid facts (type ranges of loaded elements)
         self._fact_ids = set()
+        self.assume_store_fits = False  # S/F mode: a value stored into a narrower output slot is assumed representable
+        self.assumed_fits = 0
         self.float_is_neutral = False   # python side: float(x) of an integer is a type-neutral conversion
 
     # ---- util
@@ -295,7 +298,8 @@ class Evaluator:
             return Val(to_bool(v), "bool")
         if ty in INT_TYPES:
             if v.k == "flt":
-                return Val(uf("f2i", F, I)(v.t), "int")
+                # out-of-range float->int conversion is undefined in C; modelled as one total function on both sides
+                return Val(wrap_int(uf("f2i", F, I)(v.t), ty), "int")
             return Val(wrap_int(to_int(v), ty), "int")
         if ty in ("f32", "f64", "pyf"):
             return Val(to_flt(v), "flt")
@@ -387,7 +391,7 @@ class Evaluator:
         return p.arr, z3.simplify(idx) if z3.is_int_value(idx) else idx
 
     def bounds(self, arr, idx, st, what):
-        if not self.emit_safety:
+        if not self.emit_safety or arr in getattr(self, "unchecked", ()):
             return
         ext = self.extents.get(arr)
         if ext is None:
@@ -426,6 +430,12 @@ class Evaluator:
         elif src_ty is not None and unconst(src_ty) == ety and ety != "bool":
             t = to_int(v)       # same static type: no conversion happens
         else:
+            if self.assume_store_fits and ety in INT_TYPES and ety != "i64" and v.k == "int":
+                r = type_range(ety)
+                raw = to_int(v)
+                if not (z3.is_int_value(raw) and r[0] <= raw.as_long() <= r[1]):
+                    st.assume(z3.And(raw >= r[0], raw <= r[1]))
+                    self.assumed_fits += 1
             t = to_int(self.coerce(v, ety)) if ety != "bool" else to_int(Val(to_bool(v), "bool"))
         st.arrs[arr] = z3.Store(st.arrs[arr], idx, t)
 
@@ -435,7 +445,8 @@ class Evaluator:
             ty = st.types.get(name) or (lv[2] if lv[2] != "py" else None)
             if name in st.arrs and name not in st.vars:
                 raise EvalError("assignment to array parameter %s" % name)
-            if v.k == "ptr":
+            if v.k == "ptr" or self.float_is_neutral:
+                # (definition side: values are converted to the C type when they are compared, not here)
                 st.vars[name] = v
             elif ty and src_ty is not None and unconst(src_ty) == unconst(ty) and ty != "bool" and v.k != "bool":
                 st.vars[name] = v
@@ -454,8 +465,18 @@ class Evaluator:
 
     def ev_asg(self, e, st):
         _, lv, rhs, ty = e
+        if (self.assume_store_fits and lv[0] == "ld" and rhs[0] == "cast" and rhs[3] == "IntegralCast"
+                and unconst(rhs[2]) in INT_TYPES and unconst(rhs[2]) != "i64"):
+            inner = self.ev(rhs[1], st)
+            if inner.k == "int":
+                r = type_range(rhs[2])
+                if not (z3.is_int_value(inner.t) and r[0] <= inner.t.as_long() <= r[1]):
+                    st.assume(z3.And(inner.t >= r[0], inner.t <= r[1]))
+                    self.assumed_fits += 1
+                return self.assign(lv, inner, st, None)
         v = self.ev(rhs, st)
-        return self.assign(lv, v, st, expr_type(rhs))
+        # an explicit/implicit conversion node at the top means a conversion did happen on this side
+        return self.assign(lv, v, st, None if rhs[0] == "cast" and rhs[3] != "noop" else expr_type(rhs))
 
     def ev_casg(self, e, st):
         _, op, lv, rhs, cty, ty = e
